@@ -67,6 +67,10 @@ var createChallengeRoles = map[string][4]string{
 	kProofUVerify: {`^arg#2$`, `^arg#3$`, `^call:gabi\.\(\*ProofU\)\.ChallengeContribution\(<gabi\.ProofU>,<gabikeys\.PublicKey>\)#0$`, `^false$`},
 	kListVerify:   {`^arg#2$`, `^arg#3$`, ``, `^arg#4$`},
 	"gabi.(ProofBuilderList).ChallengeWithRandomizers": {`^arg#1$`, `^arg#2$`, ``, `^arg#4$`},
+	// the prover's entries on top of it hand their own context, nonce and flag on
+	"gabi.(ProofBuilderList).Challenge":      {`^arg#1$`, `^arg#2$`, ``, `^arg#3$`},
+	"gabi.(ProofBuilderList).BuildProofList": {`^arg#1$`, `^arg#2$`, ``, `^arg#3$`},
+	"gabi.(*Credential).CreateDisclosureProof": {`^arg#4$`, `^arg#5$`, ``, `^false$`},
 	// (rooted at the exported entry: the call may sit in an unexported helper such as proveCommitment, which is
 	// then examined with its parameters bound to the entry's arguments)
 	"gabi.(*CredentialBuilder).CommitToSecretAndProve": {`^<gabi\.CredentialBuilder>\.context$`, `^arg#1$`, `^call:gabi\.\(\*CredentialBuilder\)\.Commit\(<gabi\.CredentialBuilder>,.*\)#0$`, `^false$`},
